@@ -134,7 +134,7 @@ LEVEL_TEXT = ("Coq theorems (all automata, no bounds) about executable models of
               "boolean gates used on libvata's output decide exactly the property. Tie to the C++: libvata rebuilt from /repo's working tree is run "
               "on generated automata (complete small slice + targeted + random) and its outputs are judged by the extracted verified gates; "
               "structural equality with the model is reported as drift.")
-LEVEL_NOTE = ("Trusted: Coq kernel, ExtrOcamlBasic extraction, OCaml/C++ glue (parsing, printing), generators. The C++ is modelled, not verified: "
+LEVEL_NOTE = ("Besides the function-level models, the counter / work-list algorithm behind RemoveUselessStates and IsLangEmpty is modelled and proved to mark exactly the productive states for every fuel (C03_counter_algorithm_exact; run as drift on every case). Trusted: Coq kernel, ExtrOcamlBasic extraction, OCaml/C++ glue (parsing, printing), generators. The C++ is modelled, not verified: "
               "the tie is behavioural on generated inputs (distribution in the evidence). No axioms (Print Assumptions: closed under the global context).")
 TECHNIQUE = "Coq proof of model + verified gate deciders; extracted-model correspondence against libvata on generated automata"
 DESIGN_REF = "DESIGN.md 5/C03"
